@@ -108,9 +108,12 @@ SatGap(r, a) == a >= CAP
 (* (C01)?  Exceptions: max-stale, only-if-cached, the response's own       *)
 (* stale-while-revalidate window.  Boundaries "exactly N" are inside.      *)
 (***************************************************************************)
+\* min-fresh: a huge min-fresh against a huge lifetime compares two numbers of which only "at least 2^31" is known
 MayFresh(r, a, rq) ==
   /\ MayFreshAge(r, a, RqLim(rq))
-  /\ (rq.mf < 1 \/ MayFreshAge(r, Sat(a + rq.mf - 1), RqLim(rq)))
+  /\ \/ rq.mf < 1
+     \/ MayFreshAge(r, Sat(a + rq.mf - 1), RqLim(rq))
+     \/ (Sat(a + rq.mf) >= CAP /\ EffLifeMax(r, rq) >= CAP)
 
 MaxStaleCovers(r, a, rq) ==
   \/ rq.ms = NoArg
